@@ -1771,6 +1771,194 @@ def insn_section(ctx):
     ctx.extra["insn_grid_cases"] = min(len(cases), budget)
     ctx.extra["insn_grid_complete"] = full
 
+
+# ----------------------------------------------------------------------------------------------------------
+# the return-data buffer after every kind of sub-context ending (EIP-211), observed through RETURNDATASIZE and
+# RETURNDATACOPY on the real SEVM and compared with a flat byte array:
+#   CALL / STATICCALL / DELEGATECALL returning or reverting with n bytes  -> buffer = those n bytes
+#   CREATE / CREATE2 whose init code returns n bytes (success)            -> buffer empty
+#   CREATE / CREATE2 whose init code reverts with n bytes                 -> buffer = those n bytes
+#   no sub-context                                                       -> buffer empty
+
+RD_MAIN = 0xAAAA
+RD_CALLEE = 0x2000
+
+
+def _payload(n):
+    return bytes((0xA0 + 7 * i) & 0xFF for i in range(n))
+
+
+def _emit_code(n, revert):
+    """code that copies its own n-byte tail to memory[0:n] and RETURNs / REVERTs it"""
+    head_len = 3 + 3 + 2 + 1 + 3 + 2 + 1
+    head = _p2(n) + _p2(head_len) + b"\x60\x00" + b"\x39" + _p2(n) + b"\x60\x00" + (b"\xfd" if revert else b"\xf3")
+    assert len(head) == head_len
+    return head + _payload(n)
+
+
+ECHO_RETURN = bytes.fromhex("365f5f37365ff3")  # calldatacopy(0,0,cds); return(0,cds)
+ECHO_REVERT = bytes.fromhex("365f5f37365ffd")
+
+
+def rd_run(case):
+    global _INSN_SEVM
+    from vlib import sevmdrv
+    from halmos.utils import con_addr
+    from z3 import BitVecVal as _BVV
+
+    if _INSN_SEVM is None:
+        _INSN_SEVM = sevmdrv.mk_sevm()
+    sevm, args = _INSN_SEVM
+    import logging
+
+    logging.getLogger("halmos").setLevel(logging.ERROR)  # "unknown deployed bytecode" warnings of every CREATE
+    kind, outcome, n = case["kind"], case["outcome"], case["n"]
+    dst, off, size = case["dst"], case["off"], case["size"]
+    revert = outcome == "revert"
+    mem_pieces, mem = [], []
+    extra = {}
+    observe = b"\x3d" + _p2(size) + _p2(off) + _p2(dst) + b"\x3e" + b"\x00"   # RETURNDATASIZE; RETURNDATACOPY; STOP
+    if kind == "none":
+        prog = b"\x60\x01" + observe          # a dummy "status" so that the stack shape is the same
+        payload = []
+        expect_status_nonzero = True
+    elif kind in ("CREATE", "CREATE2"):
+        init = _emit_code(n, revert)
+        # parent: codecopy(0, tail, len(init)); create(0, 0, len(init)) / create2(0, 0, len(init), salt)
+        create = (b"\x60\x2a" if kind == "CREATE2" else b"") + _p2(len(init)) + b"\x60\x00\x60\x00" + (b"\xf5" if kind == "CREATE2" else b"\xf0")
+        head_len = 3 + 3 + 2 + 1 + len(create) + len(observe)
+        prog = _p2(len(init)) + _p2(head_len) + b"\x60\x00" + b"\x39" + create + observe
+        assert len(prog) == head_len
+        prog += init
+        mem = list(init)
+        payload = list(_payload(n)) if revert else []
+        expect_status_nonzero = not revert
+    else:
+        opc = {"CALL": 0xF1, "STATICCALL": 0xFA, "DELEGATECALL": 0xF4}[kind]
+        if case.get("sym"):
+            # the callee echoes its input: memory[0:n] of the caller, which holds symbolic bytes
+            mem_pieces, mem = insn_dirty(True)
+            mem = list(mem)
+            extra[con_addr(RD_CALLEE)] = Contract(ECHO_REVERT if revert else ECHO_RETURN)
+            payload = PyFlat.read(mem, 0, n)
+            argsize = n
+        else:
+            extra[con_addr(RD_CALLEE)] = Contract(_emit_code(n, revert))
+            payload = list(_payload(n))
+            argsize = 0
+        # (gas, addr, [value], argsOffset, argsSize, retOffset, retSize) pushed in reverse
+        prog = b"\x60\x00\x60\x00" + _p2(argsize) + b"\x60\x00" + (b"\x60\x00" if kind == "CALL" else b"") + _p2(RD_CALLEE) + b"\x5a" + bytes([opc]) + observe
+        expect_status_nonzero = not revert
+    ex = sevmdrv.mk_ex(sevm, args, Contract(prog), this=_BVV(RD_MAIN, 160), caller=_BVV(0xCCCC, 160), origin=_BVV(0xDDDD, 160),
+                       value=_BVV(0, 256), extra_code=extra or None)
+    for piece in mem_pieces:
+        ex.st.memory.append(piece)
+    fail = off + size > len(payload)
+    exp_mem = mem if (size == 0 or fail) else PyFlat.write(mem, dst, PyFlat.read(payload, off, off + size))
+    exp = {"fail": fail, "mem": exp_mem, "size": len(payload), "status_nonzero": expect_status_nonzero, "payload": payload}
+    signal.setitimer(signal.ITIMER_REAL, 20.0)
+    try:
+        exs = list(sevm.run(ex))
+    except OpTimeout:
+        return {"crash": "Timeout"}, exp
+    except Exception as e:  # noqa: BLE001
+        return {"crash": err_name(e) + ": " + str(e)[:100]}, exp
+    finally:
+        signal.setitimer(signal.ITIMER_REAL, 0)
+    got = {"paths": len(exs)}
+    if len(exs) == 1:
+        e0 = exs[0]
+        err = e0.context.output.error
+        got["error"] = type(err).__name__ if err is not None else None
+        st = e0.st.stack
+
+        def as_int(w):
+            v = w.value if isinstance(w, BV) else w
+            if hasattr(v, "as_long") and is_bv_value(v):
+                v = v.as_long()
+            return v if isinstance(v, int) else None
+
+        if len(st) >= 2:
+            got["status"] = as_int(st[0])
+            got["size"] = as_int(st[1])
+        if err is None:
+            m = e0.st.memory
+            got["mem_len"] = len(m)
+            try:
+                got["mem"] = Impl.chunk_tokens(m)
+            except (Uncanonical, RecursionError) as e:
+                got["crash"] = "uncanonical " + str(e)
+    return got, exp
+
+
+def rd_check(ctx, case, tag):
+    got, exp = rd_run(case)
+    n = case["n"]
+    ncls = "empty" if n == 0 else "nonempty"
+    off, size = case["off"], case["size"]
+    plen = exp["size"]
+    window = "size0" if size == 0 else "inside" if off + size < plen else "to-end" if off + size == plen else "one-past" if off + size == plen + 1 else "beyond"
+    fam = f"{case['kind']}:{case['outcome']}:{ncls}{':sym' if case.get('sym') else ''}"
+    ctx.case(("returndata", fam, n, window, off > 0, case["dst"]))
+    ctx.count(f"returndata:{case['kind']}:{case['outcome']}")
+    ctx.count(f"returndata-window:{window}")
+    problem = None
+    if "crash" in got:
+        problem = ("crash", f"the run raised {got['crash']}")
+    elif got["paths"] != 1:
+        problem = ("paths", f"{got['paths']} paths for a straight-line program")
+    elif got.get("size") != exp["size"]:
+        problem = ("size", f"RETURNDATASIZE = {got.get('size')}, the buffer holds {exp['size']} bytes ({tok_str(exp['payload'])})")
+    elif got.get("status") is None or (got["status"] != 0) != exp["status_nonzero"]:
+        problem = ("status", f"the sub-context pushed {got.get('status')}, expected {'non-zero' if exp['status_nonzero'] else '0'}")
+    elif exp["fail"]:
+        if got["error"] is None:
+            problem = ("accepted-out-of-bounds", "an out-of-bounds RETURNDATACOPY did not fail")
+    elif got["error"] is not None:
+        problem = ("error", f"RETURNDATACOPY of an in-bounds window failed with {got['error']}")
+    elif got.get("mem_len") != len(exp["mem"]) or got.get("mem") != exp["mem"]:
+        problem = ("memory", f"memory after RETURNDATACOPY is {tok_str(got.get('mem') or [])} (length {got.get('mem_len')}), the flat array gives "
+                             f"{tok_str(exp['mem'])} (length {len(exp['mem'])})")
+    if problem:
+        key = f"returndata:{fam}:{problem[0]}"
+        ctx.violation(key, f"return-data buffer after {case['kind']} ({case['outcome']}, {n}-byte payload{', symbolic' if case.get('sym') else ''}), then "
+                           f"RETURNDATASIZE; RETURNDATACOPY(dst={case['dst']}, offset={off}, size={size}) [{tag}]: {problem[1]}",
+                      {"kind": "returndata", "case": case})
+        return False
+    return True
+
+
+def rd_cases():
+    out = []
+    for n in (0, 1, 4, 32, 33, 100):
+        windows = {(0, 0), (0, n), (0, n + 1), (n, 0), (n, 1), (max(0, n - 1), 1), (n // 2, n - n // 2), (1, max(0, n - 2)), (0, min(n, 4)), (n + 1, 0), (3, 40)}
+        for kind in ("CALL", "STATICCALL", "DELEGATECALL", "CREATE", "CREATE2"):
+            for outcome in ("success", "revert"):
+                for off, size in sorted(windows):
+                    for dst in (0, 0x85):
+                        out.append({"kind": kind, "outcome": outcome, "n": n, "off": off, "size": size, "dst": dst})
+                        if kind in ("CALL", "STATICCALL", "DELEGATECALL") and n in (4, 33) and dst == 0x85:
+                            out.append({"kind": kind, "outcome": outcome, "n": n, "off": off, "size": size, "dst": dst, "sym": True})
+    for off, size in ((0, 0), (0, 1), (1, 0)):
+        out.append({"kind": "none", "outcome": "success", "n": 0, "off": off, "size": size, "dst": 0})
+    return out
+
+
+def rd_corpus(ctx):
+    corpus = VERIF / "corpus" / ID
+    if corpus.is_dir():
+        for p in sorted(corpus.glob("*.json")):
+            for case in json.loads(p.read_text()).get("returndata_cases", []):
+                rd_check(ctx, case, f"corpus:{p.name}")
+                ctx.count("returndata-corpus-cases")
+
+
+def rd_section(ctx):
+    cases = rd_cases()
+    for c in cases:
+        rd_check(ctx, c, "grid")
+    ctx.extra["returndata_cases"] = len(cases)
+
 # ----------------------------------------------------------------------------------------------------------
 
 
@@ -1796,6 +1984,7 @@ def correspond(ctx):
                 ctx.count("corpus-history")
     runner.finish()
     insn_corpus(ctx)
+    rd_corpus(ctx)
 
     # 1. exhaustive small scope
     A = alphabet()
@@ -1868,6 +2057,9 @@ def correspond(ctx):
     # 4. instruction level: the copy instructions on the real SEVM
     insn_section(ctx)
 
+    # 5. the return-data buffer after every kind of sub-context ending
+    rd_section(ctx)
+
     ctx.sample({"witness": [op_line(o) for o in WITNESS]})
     ctx.sample({"exhaustive_example": [op_line(o) for o in PREAMBLE + A[:2]]})
     ctx.sample({"random_example": [op_line(o) for o in gen.history(8)]})
@@ -1885,6 +2077,9 @@ def replay(ctx, data) -> bool:
                 print(f"  diverges at step {r[0]}: {r[1]}")
                 return True
         return False
+    if rep.get("kind") == "returndata":
+        sub = type(ctx)(ctx.pid, ctx.tier, ctx.seed)
+        return not rd_check(sub, rep["case"], "replay")
     if rep.get("kind") == "insn":
         sub = type(ctx)(ctx.pid, ctx.tier, ctx.seed)
         return not insn_check(sub, rep["case"], "replay")
